@@ -159,3 +159,40 @@ def _failure_justified(it, a, kw):
 
 
 failure_justified._pyvc_model = _failure_justified
+
+
+# ----------------------------------------------------------------------------- C06 observers (symbolic only)
+holds = _sym("holds")
+has_value = _sym("has_value")
+
+
+def _holds(it, a, kw):
+    """the heap object stores, in attribute attr, what the declared converter makes of value (None for None)"""
+    import z3
+    from contracts import agghooks as AH
+    from pyvc.values import SBool, SObj, SIte
+    from pyvc import models as M
+    obj, attr, value = a
+    obj = it.force(obj)
+    if not isinstance(obj, SObj) or attr not in obj.fields:
+        return False
+    stored = obj.fields[attr]
+    isnone = M.is_none(it, value)
+    want = z3.If(zb(isnone), AH.NoneV, AH.conv(it.lit(attr), AH.toV(it, value)))
+    return SBool(AH.toV(it, stored) == want)
+
+
+def zb(x):
+    import z3
+    return z3.BoolVal(x) if isinstance(x, bool) else x
+
+
+def _has_value(it, a, kw):
+    from pyvc.values import SObj
+    obj, attr = a
+    obj = it.force(obj)
+    return isinstance(obj, SObj) and obj.fields.get(attr) is not None
+
+
+holds._pyvc_model = _holds
+has_value._pyvc_model = _has_value
